@@ -18,6 +18,7 @@ import (
 	"sync"
 	"testing"
 	"testing/synctest"
+	"time"
 
 	"pgregory.net/rapid"
 )
@@ -206,7 +207,10 @@ func Flush() {
 			continue
 		}
 		name := fmt.Sprintf("%s-%s-%s-%d.json", st.Prop, strings.ReplaceAll(st.Name, "/", "_"), shard, os.Getpid())
-		_ = os.WriteFile(filepath.Join(dir, name), b, 0o644)
+		tmp := filepath.Join(dir, "."+name+".tmp")
+		if os.WriteFile(tmp, b, 0o644) == nil {
+			_ = os.Rename(tmp, filepath.Join(dir, name))
+		}
 	}
 }
 
@@ -316,6 +320,15 @@ func evaluate[C any](tt *testing.T, s Spec[C], st *stats, c C, count bool) (erro
 	caseJSON, jerr := json.Marshal(c)
 	if jerr != nil {
 		panic("case not serialisable: " + jerr.Error())
+	}
+	// When the driver re-runs a shard that died (a panic on a goroutine the
+	// check does not own, a runtime fatal error), the case being evaluated is
+	// kept in $VERIF_PENDING so that it can be reported as the replay file.
+	if pend := os.Getenv("VERIF_PENDING"); pend != "" {
+		rf := replayFile{Prop: s.Prop, Name: s.Name, Violation: "the process died while this case was being evaluated", Case: caseJSON}
+		b, _ := json.MarshalIndent(rf, "", " ")
+		_ = os.WriteFile(pend, b, 0o644)
+		defer os.Remove(pend)
 	}
 	info, err := safeCheck(tt, s, c)
 	var ie *InconclusiveError
@@ -458,7 +471,7 @@ func Replay[C any](t *testing.T, s Spec[C], path string) (bool, error) {
 	if err := json.Unmarshal(b, &rf); err != nil {
 		t.Fatalf("HARNESS: %v", err)
 	}
-	if rf.Prop != s.Prop || rf.Name != s.Name {
+	if rf.Prop != s.Prop || (rf.Name != s.Name && rf.Name != s.Name+"-fuzz" && rf.Name != s.Name+"-genfuzz") {
 		return false, nil
 	}
 	c, err := load[C](path)
@@ -537,4 +550,54 @@ func Thorough() bool { return Tier() == "thorough" }
 func SaveReplay[C any](s Spec[C], c C, verr error) string {
 	b, _ := json.Marshal(c)
 	return writeReplay(s.Prop, s.Name, b, verr)
+}
+
+// ---- native coverage-guided fuzzing (go test -fuzz) ----
+
+var (
+	fuzzFlushMu   sync.Mutex
+	fuzzLastFlush time.Time
+)
+
+// FuzzEval evaluates one case decoded from a native fuzz input with the
+// spec's oracle. Statistics go to the sub-check "<name>-fuzz" and are flushed
+// about once a second, because fuzz workers are not shut down through the
+// testing package. On a violation the case is written as an ordinary JSON
+// replay file; the VIOLATION line is only visible when the crasher is re-run
+// in-process (the driver does that), since workers' stdout is discarded.
+func FuzzEval[C any](t *testing.T, s Spec[C], c C) {
+	fuzzEval(t, s, c, "-fuzz", "go test -fuzz (coverage-guided, all cores) over byte-level inputs decoded into the same case type and judged by the same oracle as ["+s.Name+"]; seeds are examples of the structured generator; non-trivial = same rule")
+}
+
+// FuzzGen registers a native fuzz target whose input bytes are the entropy of
+// the spec's own rapid generator (rapid.MakeFuzz), so coverage feedback
+// steers the structured generator.
+func FuzzGen[C any](f *testing.F, s Spec[C]) {
+	rule := "go test -fuzz (coverage-guided, all cores) feeding the structured generator of [" + s.Name + "] through rapid.MakeFuzz; same oracle; non-trivial = same rule"
+	f.Fuzz(func(t *testing.T, data []byte) {
+		rapid.MakeFuzz(func(rt *rapid.T) {
+			c := s.Gen(rt)
+			fuzzEval(t, s, c, "-genfuzz", rule)
+		})(t, data)
+	})
+}
+
+func fuzzEval[C any](t *testing.T, s Spec[C], c C, suffix, rule string) {
+	fs := s
+	fs.Name = s.Name + suffix
+	st := getStats(fs.Prop, fs.Name, rule)
+	verr, caseJSON := evaluate(t, fs, st, c, true)
+	fuzzFlushMu.Lock()
+	if time.Since(fuzzLastFlush) > time.Second || verr != nil {
+		fuzzLastFlush = time.Now()
+		fuzzFlushMu.Unlock()
+		Flush()
+	} else {
+		fuzzFlushMu.Unlock()
+	}
+	if verr != nil {
+		path := writeReplay(fs.Prop, fs.Name, caseJSON, verr)
+		fmt.Printf("VIOLATION property=%s replay=%s\n", fs.Prop, path)
+		t.Fatalf("%s/%s violated: %v", fs.Prop, fs.Name, verr)
+	}
 }
